@@ -382,6 +382,11 @@ class CursorTranslator(Translator):
                 v = self.rvalue(args[i], st)
                 if isinstance(v, Cur):
                     v = v.off
+                elif isinstance(v, Addr) and v.lv[0] == "local":
+                    # `f (.., &ts)`: what the local holds (e.g. the token an earlier call stored through `&ts`)
+                    v = st["locals"].get(v.lv[1])
+                    if not isinstance(v, E):
+                        raise KError("address of an unset local recorded in an event")
                 elif isinstance(v, Addr):
                     if v.lv[0] != "path":
                         raise KError("address of a local recorded in an event")
